@@ -142,4 +142,10 @@ var plans = map[string]plan{
 		Rule:     "cases are (template family over segments a, b and variables x, y with shared prefixes and literal/templated siblings, method sets, server in {none, /v1, /api/{ver}, http://h.example/base}, router in {gorillamux, legacy}, request). Requests are (i) declared templates filled with non-empty slash-free values under the declared server with declared and undeclared methods, (ii) neighbours: trailing slash, extra segment, doubled slash, missing segment, other prefix, other host. enum stage: every family of 1-2 templates (3 in the thorough tier) from 6 templates x 2 method assignments x 4 servers x 2 routers x its request set, complete; rapid stage: families of up to 5 templates and fresh values. Oracle: reference regex matcher (soundness of any returned route incl. operation identity and reproduction of the path, literal precedence, route errors, completeness for declared requests). Requests under a relative server are server-side requests, under an absolute server they carry an absolute URL (documented precondition of both routers). non-trivial = templates sharing a first segment, a server with variables, or a neighbour request. distinct = FNV-64a of the canonical case JSON.",
 		Assume:   []string{"a declared request for which another declared template also matches the path but lacks the method is counted as ambiguous and not asserted (the specification defines no precedence among templated paths)"},
 	},
+	"C13": {
+		Quick:    []stage{rapidStage(4_000)},
+		Thorough: []stage{rapidStage(200_000)},
+		Rule:     "cases are (query / header / cookie parameters of kind integer, string, array with every explode setting, each present or absent, with or without a schema default; a JSON body schema with defaults in seven positions: plain property, nested object, object-valued default with a nested default, allOf member, oneOf branch, anyOf branch, array items; a body sending any subset of those properties, valid or invalid; SkipSettingDefaults; no security / callback passing or failing, reading the body or not; server-style one-shot body or client-style body with GetBody). Checked after ValidateRequest: the shared document is unchanged; the body reads back in full (original bytes when skipping, failing or nothing defaulted; otherwise JSON equal to the original plus exactly the defaults of the matched branches, with a consistent ContentLength); skipping leaves query and headers identical; every absent parameter with a default decodes to that default and no other parameter appears; the forwarded request validates again; a second validation changes nothing. non-trivial = a default actually applies and (a nested / composed / array-item default, an array parameter default, a body-reading callback, or a server-style body). distinct = FNV-64a of the canonical case JSON.",
+		Assume:   []string{"expected defaults come from a reference injection over the raw schema along the branches the value matches (branches are mutually exclusive by a required constant 'kind')", "decoded parameter values are read through the verif hook (C05 ties the decoder to the specification)"},
+	},
 }
